@@ -18,7 +18,7 @@
 From Coq Require Import List PeanoNat NArith Bool Lia ZifyN ZifyNat ZifyBool.
 From Frugal Require Import Bytes Wire Skip Values Desc Spec Encode Decode Checks.
 From Frugal.gen Require Import Params.
-From Frugal.proofs Require Import DecodeSound BytesWire EncodeSpec SizeExact SkipPut DecodeSafe DecodeRefines RoundTrip Corollaries.
+From Frugal.proofs Require Import DecodeSound BytesWire EncodeSpec SizeExact SkipPut DecodeSafe DecodeRefines RoundTrip Corollaries ParamsSplit.
 Import ListNotations.
 Open Scope N_scope.
 
@@ -804,7 +804,7 @@ Definition hop_cell (env : senv) (fdsW : list field) (fs : list val) (f : field)
 
 Section TwoHop.
   Variable env : senv.
-  Hypothesis HP : params_ok = true.
+  Hypothesis HP : dec_params_ok = true.
   Hypothesis HE : env_ok env = true.
   Hypothesis HI : init_ok env = true.
   Variable ok : N -> bool.
@@ -905,8 +905,8 @@ Section TwoHop.
     intros f v q Hfo Hem Ht Hr Hp.
     pose proof (emitted_slot_ok env f v Hfo (emits_not_skipped f v Hem)) as Hs.
     split.
-    - symmetry. exact (code_of_denote env HP v (fty f) Ht Hs).
-    - exact (absorb_denote_gen env HP HE HI v (fty f) q Ht Hs Hr Hp).
+    - symmetry. exact (code_of_denote env (dec_enc HP) v (fty f) Ht Hs).
+    - exact (absorb_denote_gen env (dec_enc HP) HE HI v (fty f) q Ht Hs Hr Hp).
   Qed.
 
   (* the cells of the intermediary's result *)
@@ -997,7 +997,7 @@ Section TwoHop.
   Proof.
     intros i f v Hi Ht Hfo Hem. apply skipped_false. exists i, f. split; [exact (getR i f Hi)|].
     pose proof (emitted_slot_ok env f v Hfo (emits_not_skipped f v Hem)) as Hs.
-    symmetry. exact (code_of_denote env HP v (fty f) Ht Hs).
+    symmetry. exact (code_of_denote env (dec_enc HP) v (fty f) Ht Hs).
   Qed.
 
   (* ---- the intermediary's field loop ---- *)
@@ -1220,7 +1220,7 @@ Section TwoHop.
     destruct (wt (fty f) =? code_of (denote env (fty f) v)); [|apply Nat.le_0_l].
     destruct (Wfacts j f Hj) as (v' & q2 & Hv' & Hq2 & Ht & He & Hh & Hrn & Hp2 & Hfo).
     rewrite Hv in Hv'. injection Hv' as Hv'. subst v'.
-    pose proof (need_denote env HP HE v (fty f) Ht (emitted_slot_ok env f v Hfo (emits_not_skipped f v Hem))) as H1.
+    pose proof (need_denote env (dec_enc HP) HE v (fty f) Ht (emitted_slot_ok env f v Hfo (emits_not_skipped f v Hem))) as H1.
     pose proof (vdepth_field fs j v [] Hv) as H2. clear -H1 H2. lia.
   Qed.
 
@@ -1236,7 +1236,7 @@ Section TwoHop.
     destruct (wt (fty f) =? code_of (denote env (fty f) v)); [|clear -Hw H2; lia].
     destruct (Wfacts j f Hj) as (v' & q2 & Hv' & Hq2 & Ht & He & Hh & Hrn & Hp2 & Hfo).
     rewrite Hv in Hv'. injection Hv' as Hv'. subst v'.
-    rewrite (skipped_denote env HP HE v (fty f) Ht (emitted_slot_ok env f v Hfo (emits_not_skipped f v Hem))).
+    rewrite (skipped_denote env (dec_enc HP) HE v (fty f) Ht (emitted_slot_ok env f v Hfo (emits_not_skipped f v Hem))).
     apply Nat.le_0_l.
   Qed.
 
@@ -1252,14 +1252,14 @@ Section TwoHop.
                                       & Htc & Hhc & Hemvc & Hcc).
       rewrite Hc in Hc'. injection Hc' as Hc'. subst c'.
       rewrite (getW j f Hj). destruct (wt (fty f) =? code_of (denote env (fty f) c)); [|apply Nat.le_0_l].
-      pose proof (need_denote env HP HE c (fty f) Htc (emitted_slot_ok env f c Hfo (emits_not_skipped f c Hemc))) as H1.
+      pose proof (need_denote env (dec_enc HP) HE c (fty f) Htc (emitted_slot_ok env f c Hfo (emits_not_skipped f c Hemc))) as H1.
       pose proof (vdepth_field curR i c h Hc) as H2. clear -H1 H2. lia.
     - apply filter_In in Hin. destruct Hin as [Hin _].
       destruct (fsW_entry id w Hin) as (j & f & v & Hj & Hv & Hem & Eid & Ew). subst id w.
       destruct (Wfacts j f Hj) as (v' & q2 & Hv' & Hq2 & Ht & He & Hh & Hrn & Hp2 & Hfo).
       rewrite Hv in Hv'. injection Hv' as Hv'. subst v'.
       rewrite (getW j f Hj). destruct (wt (fty f) =? code_of (denote env (fty f) v)); [|apply Nat.le_0_l].
-      pose proof (need_denote env HP HE v (fty f) Ht (emitted_slot_ok env f v Hfo (emits_not_skipped f v Hem))) as H1.
+      pose proof (need_denote env (dec_enc HP) HE v (fty f) Ht (emitted_slot_ok env f v Hfo (emits_not_skipped f v Hem))) as H1.
       pose proof (vdepth_field fs j v [] Hv) as H2. clear -H1 H2. lia.
   Qed.
 
@@ -1273,15 +1273,15 @@ Section TwoHop.
                                       & Htc & Hhc & Hemvc & Hcc).
       rewrite Hc in Hc'. injection Hc' as Hc'. subst c'.
       pose proof (emitted_slot_ok env f c Hfo (emits_not_skipped f c Hemc)) as Hs.
-      rewrite (getW j f Hj), (code_of_denote env HP c (fty f) Htc Hs), N.eqb_refl.
-      rewrite (skipped_denote env HP HE c (fty f) Htc Hs). apply Nat.le_0_l.
+      rewrite (getW j f Hj), (code_of_denote env (dec_enc HP) c (fty f) Htc Hs), N.eqb_refl.
+      rewrite (skipped_denote env (dec_enc HP) HE c (fty f) Htc Hs). apply Nat.le_0_l.
     - apply filter_In in Hin. destruct Hin as [Hin _].
       destruct (fsW_entry id w Hin) as (j & f & v & Hj & Hv & Hem & Eid & Ew). subst id w.
       destruct (Wfacts j f Hj) as (v' & q2 & Hv' & Hq2 & Ht & He & Hh & Hrn & Hp2 & Hfo).
       rewrite Hv in Hv'. injection Hv' as Hv'. subst v'.
       pose proof (emitted_slot_ok env f v Hfo (emits_not_skipped f v Hem)) as Hs.
-      rewrite (getW j f Hj), (code_of_denote env HP v (fty f) Ht Hs), N.eqb_refl.
-      rewrite (skipped_denote env HP HE v (fty f) Ht Hs). apply Nat.le_0_l.
+      rewrite (getW j f Hj), (code_of_denote env (dec_enc HP) v (fty f) Ht Hs), N.eqb_refl.
+      rewrite (skipped_denote env (dec_enc HP) HE v (fty f) Ht Hs). apply Nat.le_0_l.
   Qed.
 End TwoHop.
 
@@ -1338,7 +1338,7 @@ Proof. induction l as [|x l IH]; [reflexivity|]. cbn [forallb]. rewrite holders_
 
 (* the intermediary's value, and what the final reader makes of its output *)
 Theorem two_hop_full : forall env ok sidW sidR sdW sdR v r,
-  params_ok = true -> env_ok env = true -> init_ok env = true ->
+  dec_params_ok = true -> env_ok env = true -> init_ok env = true ->
   (forall sid, ok sid = true -> fresh_stable env sid) -> zero_compat env ->
   lookup_sd env sidW = Some sdW -> lookup_sd env sidR = Some sdR -> sholder sdR = true ->
   sub_schema sdR sdW -> fresh_compat env sdR sdW (fresh env sidR) (fresh env sidW) ->
@@ -1374,7 +1374,7 @@ Proof.
     by (rewrite Eh; destruct (put_fields (filter (skipped sdR) (emitted env sdW fs))); reflexivity).
   clear Eh. subst h.
   assert (Hwf : wf (WStruct (emitted env sdW fs) []) = true).
-  { rewrite <- Ed. apply denote_wf_struct; try assumption. rewrite holders_empty_same. exact Hh. }
+  { rewrite <- Ed. apply denote_wf_struct; try assumption; try exact (dec_enc HP). rewrite holders_empty_same. exact Hh. }
   assert (Htr : has_type env (TStruct sidR)
                   (VT (zipw (hop_cell env (sfields sdW) fs) (sfields sdR) psR)
                       (put_fields (filter (skipped sdR) (emitted env sdW fs)))) = true).
@@ -1386,7 +1386,7 @@ Proof.
   split; [rewrite HfW; exact Hab|].
   split; [reflexivity|].
   split; [|split].
-  - apply (one_hop_wf env sidR sdR _ _ _ HP HE HlR Hwf Htr).
+  - apply (one_hop_wf env sidR sdR _ _ _ (dec_enc HP) HE HlR Hwf Htr).
     rewrite forallb_holders_same. exact Hhc.
   - exact (need_W2 env HP HE HI ok HOK HZ sidW sidR sdW sdR HlW HlR Hsub psR psW HfR HfW Hfc fs
                          Hty Hen Hhe Hrq Hnp _).
@@ -1396,7 +1396,7 @@ Qed.
 
 (* the depth budget of the first hop, and its message *)
 Lemma first_hop_budget : forall env ok sidW sidR sdW sdR v,
-  params_ok = true -> env_ok env = true -> init_ok env = true ->
+  dec_params_ok = true -> env_ok env = true -> init_ok env = true ->
   lookup_sd env sidW = Some sdW -> lookup_sd env sidR = Some sdR -> sub_schema sdR sdW ->
   has_type env (TStruct sidW) v = true -> enums32 env (TStruct sidW) v = true -> Spec.holders_empty v = true ->
   req_complete env (TStruct sidW) v = true -> nil_ptrs_ok ok env (TStruct sidW) v = true ->
@@ -1410,7 +1410,7 @@ Proof.
   assert (Ed : denote env (TStruct sidW) (VT fs []) = WStruct (emitted env sdW fs) []).
   { rewrite denote_VT, HlW. destruct (sholder sdW); reflexivity. }
   exists (emitted env sdW fs). split; [exact Ed|]. split; [|split].
-  - rewrite <- Ed. apply denote_wf_struct; try assumption. rewrite holders_empty_same. exact Hh.
+  - rewrite <- Ed. apply denote_wf_struct; try assumption; try exact (dec_enc HP). rewrite holders_empty_same. exact Hh.
   - exact (need_R env HP HE HI ok sidW sidR sdW sdR HlW HlR Hsub psW HfW fs Hty Hen Hhe Hrq Hnp).
   - exact (skipped_R env HP HE HI ok sidW sidR sdW sdR HlW HlR Hsub psW HfW fs Hty Hen Hhe Hrq Hnp).
 Qed.
@@ -1418,7 +1418,7 @@ Qed.
 (* the final reader sees, after the hop through the older intermediary, exactly
    what it would have seen directly *)
 Theorem two_hop : forall env ok sidW sidR sdW sdR v r,
-  params_ok = true -> env_ok env = true -> init_ok env = true ->
+  dec_params_ok = true -> env_ok env = true -> init_ok env = true ->
   (forall sid, ok sid = true -> fresh_stable env sid) -> zero_compat env ->
   lookup_sd env sidW = Some sdW -> lookup_sd env sidR = Some sdR -> sholder sdR = true ->
   sub_schema sdR sdW -> fresh_compat env sdR sdW (fresh env sidR) (fresh env sidW) ->
@@ -1432,7 +1432,7 @@ Proof.
   intros env ok sidW sidR sdW sdR v r HP HE HI HOK HZ HlW HlR HhR Hsub Hfc Hty Hen Hh Hrq Hnp Hr.
   destruct (two_hop_full env ok sidW sidR sdW sdR v r HP HE HI HOK HZ HlW HlR HhR Hsub Hfc Hty Hen Hh Hrq Hnp Hr)
     as (fsw & cur & _ & _ & _ & _ & Hput & Hab & _).
-  split; [exact Hput|]. rewrite Hab. symmetry. exact (absorb_top_denote env sidW v HP HE HI Hty Hrq).
+  split; [exact Hput|]. rewrite Hab. symmetry. exact (absorb_top_denote env sidW v (dec_enc HP) HE HI Hty Hrq).
 Qed.
 
 (* ================================================================== *)
@@ -1457,7 +1457,7 @@ Qed.
    no budget is asked for it; the second needs the decoder's budget for the
    writer's value and for the intermediary's. *)
 Theorem two_hop_impl : forall env ok pool pool' sidW sidR sdW sdR v r n,
-  params_ok = true -> tables_ok = true -> env_ok env = true -> init_ok env = true ->
+  dec_params_ok = true -> tables_ok = true -> env_ok env = true -> init_ok env = true ->
   (forall sid, ok sid = true -> fresh_stable env sid) -> zero_compat env ->
   lookup_sd env sidW = Some sdW -> lookup_sd env sidR = Some sdR -> sholder sdR = true ->
   sub_schema sdR sdW -> fresh_compat env sdR sdW (fresh env sidR) (fresh env sidW) ->
@@ -1472,14 +1472,14 @@ Proof.
   intros env ok pool pool' sidW sidR sdW sdR v r n HP HT HE HI HOK HZ HlW HlR HhR Hsub Hfc Hty Hen Hh Hrq Hnp Hdv Hdr Hdec.
   destruct (first_hop_budget env ok sidW sidR sdW sdR v HP HE HI HlW HlR Hsub Hty Hen Hh Hrq Hnp)
     as (fsw & Ed & Hwf & _ & _).
-  rewrite (encode_refines env sidW v HP HT HE Hty), Ed in Hdec.
+  rewrite (encode_refines env sidW v (dec_enc HP) HT HE Hty), Ed in Hdec.
   destruct (decode_sound env pool sidR _ _ r n [] HP HE (put_bytes_ok _ Hwf) Hdec) as (fs' & Hwf' & Ebs & _ & Ha').
   rewrite app_nil_r in Ebs. rewrite <- (put_struct_inj fsw fs' Hwf Hwf' Ebs) in Ha'.
   assert (Ha : absorb_top env sidR (denote env (TStruct sidW) v) (fresh env sidR) = AOk r) by (rewrite Ed; exact Ha').
   destruct (two_hop_full env ok sidW sidR sdW sdR v r HP HE HI HOK HZ HlW HlR HhR Hsub Hfc Hty Hen Hh Hrq Hnp Ha)
     as (fsw' & cur & _ & _ & Htr & _ & Hput & Hab & Em & Hwf2 & Hn2 & Hs2).
-  split; [|exact (size_exact env sidR r HP HT HE Htr)].
-  rewrite (encode_refines env sidR r HP HT HE Htr), Hput.
+  split; [|exact (size_exact env sidR r (dec_enc HP) HT HE Htr)].
+  rewrite (encode_refines env sidR r (dec_enc HP) HT HE Htr), Hput.
   rewrite Em in *.
   rewrite <- (app_nil_r (put (WStruct _ []))) at 1.
   rewrite (decode_exact env pool' sidW _ [] (fresh env sidW) HP HE Hwf2);
@@ -1489,7 +1489,7 @@ Qed.
 
 (* EncodedSize of the intermediary's value is the length of what it writes *)
 Theorem two_hop_size : forall env ok sidW sidR sdW sdR v r,
-  params_ok = true -> tables_ok = true -> env_ok env = true -> init_ok env = true ->
+  dec_params_ok = true -> tables_ok = true -> env_ok env = true -> init_ok env = true ->
   (forall sid, ok sid = true -> fresh_stable env sid) -> zero_compat env ->
   lookup_sd env sidW = Some sdW -> lookup_sd env sidR = Some sdR -> sholder sdR = true ->
   sub_schema sdR sdW -> fresh_compat env sdR sdW (fresh env sidR) (fresh env sidW) ->
@@ -1501,7 +1501,7 @@ Proof.
   intros env ok sidW sidR sdW sdR v r HP HT HE HI HOK HZ HlW HlR HhR Hsub Hfc Hty Hen Hh Hrq Hnp Ha.
   destruct (two_hop_full env ok sidW sidR sdW sdR v r HP HE HI HOK HZ HlW HlR HhR Hsub Hfc Hty Hen Hh Hrq Hnp Ha)
     as (fsw' & cur & _ & _ & Htr & _).
-  exact (size_exact env sidR r HP HT HE Htr).
+  exact (size_exact env sidR r (dec_enc HP) HT HE Htr).
 Qed.
 
 (* the intermediary re-emits, for the fields it knows, exactly the wire values it received *)
@@ -1523,7 +1523,7 @@ Qed.
    it writes the fields the writer omitted whose default-initialised value it
    does not omit, and normalised values) *)
 Theorem two_hop_length : forall env ok sidW sidR sdW sdR v r,
-  params_ok = true -> tables_ok = true -> env_ok env = true -> init_ok env = true ->
+  dec_params_ok = true -> tables_ok = true -> env_ok env = true -> init_ok env = true ->
   (forall sid, ok sid = true -> fresh_stable env sid) -> zero_compat env ->
   lookup_sd env sidW = Some sdW -> lookup_sd env sidR = Some sdR -> sholder sdR = true ->
   sub_schema sdR sdW -> fresh_compat env sdR sdW (fresh env sidR) (fresh env sidW) ->
@@ -1536,7 +1536,7 @@ Proof.
   intros env ok sidW sidR sdW sdR v r HP HT HE HI HOK HZ HlW HlR HhR Hsub Hfc Hty Hen Hh Hrq Hnp Ha Hsame.
   destruct (two_hop_full env ok sidW sidR sdW sdR v r HP HE HI HOK HZ HlW HlR HhR Hsub Hfc Hty Hen Hh Hrq Hnp Ha)
     as (fsw & cur & Ed & Er & Htr & _ & Hput & _ & Em & _).
-  rewrite (encode_refines env sidR r HP HT HE Htr), (encode_refines env sidW v HP HT HE Hty), Hput, Em, Ed.
+  rewrite (encode_refines env sidR r (dec_enc HP) HT HE Htr), (encode_refines env sidW v (dec_enc HP) HT HE Hty), Hput, Em, Ed.
   rewrite Ed, Er in Hsame. cbn [reemits_same] in Hsame.
   rewrite !put_struct_eq, !BytesWire.len_app, put_fields_app, BytesWire.len_app, Hsame.
   rewrite (len_put_fields_split (skipped sdR) fsw). reflexivity.
@@ -1778,7 +1778,7 @@ Definition hop_value_ok (env : senv) (sid : N) (v : val) : bool :=
   && req_complete env (TStruct sid) v && nil_ptrs_ok (fresh_stableb env) env (TStruct sid) v.
 
 Theorem two_hop_checked : forall n env sidW sidR v r,
-  params_ok = true -> env_ok env = true -> init_ok env = true ->
+  dec_params_ok = true -> env_ok env = true -> init_ok env = true ->
   hop_checks n env sidW sidR = true -> hop_value_ok env sidW v = true ->
   absorb_top env sidR (denote env (TStruct sidW) v) (fresh env sidR) = AOk r ->
   exists sdR, lookup_sd env sidR = Some sdR
@@ -1801,7 +1801,7 @@ Proof.
 Qed.
 
 Theorem two_hop_impl_checked : forall n env pool pool' sidW sidR v r k,
-  params_ok = true -> tables_ok = true -> env_ok env = true -> init_ok env = true ->
+  dec_params_ok = true -> tables_ok = true -> env_ok env = true -> init_ok env = true ->
   hop_checks n env sidW sidR = true -> hop_value_ok env sidW v = true ->
   (2 * vdepth v + 2 <= S (N.to_nat maxDepthLimit))%nat -> (2 * vdepth r + 2 <= S (N.to_nat maxDepthLimit))%nat ->
   decode_object env pool sidR (append_struct env sidW v) (fresh env sidR) = DOk (r, k) [] ->
@@ -1948,7 +1948,7 @@ Qed.
 
 (* without declared defaults: the sub-schema, the holder and the conditions on the value suffice *)
 Theorem two_hop_noinit : forall env sidW sidR sdW sdR v r,
-  params_ok = true -> env_ok env = true -> no_init env = true -> byvalue_acyclic env = true ->
+  dec_params_ok = true -> env_ok env = true -> no_init env = true -> byvalue_acyclic env = true ->
   lookup_sd env sidW = Some sdW -> lookup_sd env sidR = Some sdR -> sholder sdR = true -> sub_schema sdR sdW ->
   hop_value_ok env sidW v = true ->
   absorb_top env sidR (denote env (TStruct sidW) v) (fresh env sidR) = AOk r ->
@@ -1969,7 +1969,7 @@ Proof.
 Qed.
 
 Theorem two_hop_impl_noinit : forall env pool pool' sidW sidR sdW sdR v r k,
-  params_ok = true -> tables_ok = true -> env_ok env = true -> no_init env = true -> byvalue_acyclic env = true ->
+  dec_params_ok = true -> tables_ok = true -> env_ok env = true -> no_init env = true -> byvalue_acyclic env = true ->
   lookup_sd env sidW = Some sdW -> lookup_sd env sidR = Some sdR -> sholder sdR = true -> sub_schema sdR sdW ->
   hop_value_ok env sidW v = true ->
   (2 * vdepth v + 2 <= S (N.to_nat maxDepthLimit))%nat -> (2 * vdepth r + 2 <= S (N.to_nat maxDepthLimit))%nat ->
@@ -2034,7 +2034,7 @@ Definition r_hop : val :=
                    (8, WStruct [(1, WI32 3)] []) ]).
 
 Example hop_ex_hyps :
-  params_ok = true /\ tables_ok = true /\ env_ok env_hop = true /\ init_ok env_hop = true
+  dec_params_ok = true /\ tables_ok = true /\ env_ok env_hop = true /\ init_ok env_hop = true
   /\ hop_checks 4 env_hop 1 2 = true /\ hop_value_ok env_hop 1 v_hop = true
   /\ (2 * vdepth v_hop + 2 <= S (N.to_nat maxDepthLimit))%nat
   /\ (2 * vdepth r_hop + 2 <= S (N.to_nat maxDepthLimit))%nat.
